@@ -187,8 +187,35 @@ package commands
 //@   at call (*locking.Client).SearchLocks:2 assert has(arg1__, "id") && arg1__["id"] == id && arg2__ == 0 && !arg3__ && !arg4__
 //@   ensures result == nil && !unlockCmdFlags.Force && len(sliceof(lastsearch(), "github.com/git-lfs/git-lfs/v3/locking.Lock")) > 0 ==> !gitmodified(sliceof(lastsearch(), "github.com/git-lfs/git-lfs/v3/locking.Lock")[0].Path)
 //@   ensures result == nil && !unlockCmdFlags.Force && len(sliceof(lastsearch(), "github.com/git-lfs/git-lfs/v3/locking.Lock")) == 0 ==> !lastsearchlocal()
+// C16: the cached list of own locks follows the server also when a lock / unlock
+// command ends with an error status: os.Exit skips deferred calls, so the lock
+// client - whose Close() is what writes the cache to disk - has been closed
+// before every exit (and is closed by the deferred call on the normal way out).
+//@ func lockCommand
+//@   props C16
+//@   at call os.Exit:1 assert lockclosed(lockClient)
+//@   at call (*locking.Client).LockFile:1 assert arg0__ == lockClient
+//@ func newLockClient
+//@   assumed
+//@   props C16
+//@   modifies fresh
+//@   ensures result != nil && isfresh(result) && !lockclosed(result)
+//@ func (*github.com/git-lfs/git-lfs/v3/locking.Client).Close
+//@   assumed
+//@   props C16
+//@   modifies heap
+//@   monitor lockclosed[c] := true
+//@ func lockPath
+//@   assumed
+//@   props C16
+//@   modifies fresh
+//@ func computeLockData
+//@   assumed
+//@   props C16
+//@   modifies fresh
 //@ func unlockCommand
 //@   props C16
+//@   at call os.Exit:1 assert lockclosed(lockClient)
 //@   at call (*locking.Client).UnlockFile:1 assert guard_path(arg1__)
 //@   at call (*locking.Client).UnlockFileById:1 assert guard_id(arg1__)
 
